@@ -569,6 +569,8 @@ def str_index_grid_search(log):
     exprs, wants = [], []
     for t in strs:
         lit = '"' + ''.join(c if ord(c) < 128 else ('\\u%04x' % ord(c) if ord(c) < 0x10000 else '\\U%08x' % ord(c)) for c in t) + '"'
+        exprs.append('len(%s)' % lit)
+        wants.append('OK %d' % len(t))
         for i in idx:
             exprs.append('ord(%s[%d])' % (lit, i))
             try:
@@ -665,7 +667,7 @@ def find_witness(prop, v, repo, log):
         return r
     if 'C01.str.at' in oid or (prop == 'C01' and 'StarlarkStr' in fn):
         r = str_index_grid_search(log)
-        r['search'] = '6 strings (empty, ASCII, 2-, 3- and 4-byte characters) x i in [-8,8]+i32 extremes: ord(s[i]) on the real library vs Python'
+        r['search'] = '6 strings (empty, ASCII, 2-, 3- and 4-byte characters) x i in [-8,8]+i32 extremes: len(s) and ord(s[i]) on the real library vs Python'
         return r
     if prop == 'C01':
         r = slice_grid_search(log)
